@@ -494,6 +494,13 @@ func (t *tag) canAttachConverter() bool {
 	return t.features.MainFeatures&query.FeatureFilterData == 0 && t.features.SubQueryFeatures&query.FeatureFilterData == 0 && len(t.features.MainTags) == 0 && len(t.features.SubQueryTags) == 0
 }
 
+// isPlainStreamIDList reports whether the definition of a mark tag is written as `id:` followed by
+// numbers, ranges and commas only, the form that more ids can be appended to.
+func isPlainStreamIDList(definition string) bool {
+	list, ok := strings.CutPrefix(definition, "id:")
+	return ok && list != "" && strings.Trim(list, "0123456789,:-") == ""
+}
+
 func errTagQueryTooComplex(tagName string) error {
 	return fmt.Errorf("error: cannot attach converter to tag %s because it's query is too complex", tagName)
 }
@@ -1035,6 +1042,8 @@ func (mgr *Manager) AddTag(name, color, queryString string) error {
 	if sub == "" {
 		return errors.New("invalid tag name (prefix only not allowed)")
 	}
+	// the query is kept as text, surrounding whitespace (a trailing newline of a request body) is not part of it
+	queryString = strings.TrimSpace(queryString)
 	q, err := query.Parse(queryString)
 	if err != nil {
 		return err
@@ -1206,6 +1215,9 @@ func (mgr *Manager) UpdateTag(name string, operation UpdateTagOperation) error {
 	}
 	var newTag *tag
 	if info.query != nil {
+		// the query is kept as text, surrounding whitespace is not part of it
+		trimmedQuery := strings.TrimSpace(*info.query)
+		info.query = &trimmedQuery
 		q, err := query.Parse(*info.query)
 		if err != nil {
 			return err
@@ -1336,6 +1348,10 @@ func (mgr *Manager) UpdateTag(name string, operation UpdateTagOperation) error {
 			if markStreams {
 				if maxUsedStreamID >= mgr.nextStreamID {
 					return fmt.Errorf("unknown stream id %d", maxUsedStreamID)
+				}
+				if len(info.markTagAddStreams) != 0 && !isPlainStreamIDList(tag.definition) {
+					// the new streams are appended to the text of the definition
+					return fmt.Errorf("the query of tag %q is not a plain list of stream ids, it has to be updated before streams can be added", name)
 				}
 				newTag := *tag
 				newTag.Matches = tag.Matches.Copy()
